@@ -7,6 +7,11 @@ with numerically rescaled values (only requests whose rescaling is exact in bina
 import vcheck, retr_common
 
 PFX = [('ms', 1000.0, 0.001), ('ks', 0.001, 1000.0), ('us', 1e6, 1e-6), ('Ms', 1e-6, 1e6)]
+# the same case under several (dimension unit, request unit) pairs one after the other in one process, each pair in both directions
+# and for base units whose symbol is also a prefix letter (m, T): a conversion must not depend on earlier conversions
+def pairs_for(u, S, f):
+    pre = u[:-1]
+    return [['s', u, S, f], ['m', pre + 'm', S, f], [pre + 'm', 'm', f, S], ['m', pre + 'm', S, f]]
 
 def run(chk, replay=None):
     binary = vcheck.ensure_build('plain')
@@ -28,7 +33,7 @@ def run(chk, replay=None):
     # retrieval invariance
     prefixes = PFX if chk.thorough else [PFX[chk.seed % 4]]
     for (u, S, f) in prefixes:
-        rp2 = vcheck.Replayer(binary, seed=chk.seed, opts={'axes': 'quick', 'dim_unit': 's', 'tag_unit': u, 'scale': S, 'factor': f}, chunk=80, timeout_per_line=60)
+        rp2 = vcheck.Replayer(binary, seed=chk.seed, opts={'axes': 'quick', 'dim_unit': 's', 'tag_unit': u, 'scale': S, 'factor': f, 'unit_pairs': pairs_for(u, S, f)}, chunk=80, timeout_per_line=60)
         for t in (['tag1', 'tagn', 'slice', 'multi'] if chk.thorough else ['tag1', 'slice', 'multi']):
             run_ = vcheck.TlcRun('MC_NixRetrieval', 'MC_NixRetrieval_%s.cfg' % t, workers=8, coverage=False)
             recs, verdicts = rp2.run(r for r in run_)
@@ -44,7 +49,7 @@ def run(chk, replay=None):
     chk.traces_validated = len(chk.distinct)
     chk.extra['request_unit_prefixes'] = [p[0] for p in prefixes]
     chk.rule = ('units: all 21x21 prefix pairs x 31 base units x 7 powers (scalable), sampled different-base / different-power pairs and non-SI '
-                'strings (rejected); retrieval: the tag / slice / multi-tag case tables with requests in a prefixed unit (prefix by seed; all 4 in thorough)')
+                'strings (rejected); retrieval: the tag / slice / multi-tag case tables with requests in a prefixed unit (prefix by seed; all 4 in thorough), each case under 4 (dimension unit, request unit) pairs in one process: s/prefixed-s, m/prefixed-m, the mirrored pair, and the first again')
     chk.assumptions += ['factors are compared with the correctly rounded 10^k with relative tolerance 1e-12 (the property is about the exponent)',
                         'retrieval invariance uses only requests whose rescaling is exact in binary floating point (checked per request)',
                         'trusted: TLC, harness/h_units.cpp, harness/h_retr.cpp']
